@@ -40,8 +40,25 @@ THEOREMS (all proved for ALL configurations and ALL schedules; Print Assumptions
   C09_file_deterministic  on success every pool's file = the serial writer's file (C07 file model: write_all []
                         jobs in declaration order), given pairwise disjoint ranges within a file (what C07_offsets
                         proves for the layout)
+  C09_evaluated_at_most_once   per task, the tensor is evaluated (tofile entered) at most once on every path
+  C09_handle_valid      a parallel writer's worker holds an open descriptor from taking the tensor lock to giving
+                        it back (every write goes through a descriptor that worker opened)
+  C09_handles_closed    when the caller gets control back (return or exception, OSError from open included) every
+                        worker descriptor is closed
+  C09_waits_untimed     acquire's two wait_for calls carry no timeout (Gen: acquire_wait_timeouts = [None; None],
+                        re-extracted on every run) and a thread in condition.wait() has no step of its own in the LTS
   Nothing is partial.  Examples in Property.v replay schedules recorded from the implementation (a sleeping
-  thread, an oversized grant, a shared tensor object, an error run).
+  thread, an oversized grant, a shared tensor object, an error run, a failed open of a worker descriptor).
+
+DEEPENING ROUND (moved from oracle-only into model + theorem + trace check): _thread_file() is now a step of the LTS
+(POpen: the first time a worker gets past the callback it opens its r+b descriptor; attempt k fails with OSError
+iff k is in cfg.c_openfail -> the task raises), the `finally` of _write_parallel closes all descriptors of the pool
+at the join step, per-task evaluation counters (s_evals) are incremented at the write step.  The runtime makes
+open(path, "r+b") a scheduling point, numbers attempts in the order they happen, hands out tracked descriptors;
+traces of open-fault runs are checked in Coq like all others (events 18/19), together with the number of open
+attempts, the total number of evaluations and "no descriptor left open" (run_agrees).  Still oracle-only:
+callback=None paths (no callback step in the model); that an open fault makes the save raise follows from
+C09_error_path (raise iff some task raised) + the definition of the POpen failure step, it has no theorem of its own.
 
 THE TIE.  (1) generate(): guards/updates of _ByteBudget.__init__/acquire/release and _reservation_bytes are
 taken expression by expression with tools/translate.py's expression translator; the control skeleton around
@@ -75,7 +92,8 @@ never reach the writer through the public API (nbytes > threshold), the model al
 MODELLED, NOT VERIFIED: the GIL; the contracts of threading.Lock/Condition, ThreadPoolExecutor (FIFO queue,
 shutdown(cancel_futures) drains the queue, join), as_completed; several r+b descriptors writing disjoint ranges
 of a preallocated file; tofile()/tobytes() (C04); the files_lock critical section (no blocking call inside) is
-treated as atomic (it IS a scheduling point of the runtime, its events are dropped from the trace); synthetic
+treated as atomic inside the open step (it IS a scheduling point of the runtime, its events are dropped from the
+trace); the serial writer's single `with open(..., "wb")` descriptor and the truncate() descriptor; synthetic
 driver/dequeue events are inserted for serial inner writers (the for-loop has no executor); callback=None.
 The worker count per shard (workers_per_shard arithmetic) is predicted by the harness and cross-checked by the
 trace (a wrong count makes the model reject the trace), it is not part of the property.
@@ -188,9 +206,22 @@ def _wait_for_guard(stmt, what) -> ast.expr:
     _need(isinstance(stmt, ast.Expr) and isinstance(stmt.value, ast.Call), what + ": wait_for call")
     c = stmt.value
     _need(isinstance(c.func, ast.Attribute) and c.func.attr == "wait_for" and _is_self_attr(c.func.value, "_condition")
-          and len(c.args) == 1 and not c.keywords and isinstance(c.args[0], ast.Lambda)
-          and not c.args[0].args.args, what + ": self._condition.wait_for(lambda: ...)")
+          and len(c.args) in (1, 2) and all(k.arg == "timeout" for k in c.keywords) and len(c.keywords) <= 1
+          and isinstance(c.args[0], ast.Lambda) and not c.args[0].args.args,
+          what + ": self._condition.wait_for(lambda: ...[, timeout])")
+    # the timeout argument, if any, is recorded (Gen: acquire_wait_timeouts) — the LTS has untimed waits only
+    tmo = c.args[1] if len(c.args) == 2 else (c.keywords[0].value if c.keywords else None)
+    if tmo is None or (isinstance(tmo, ast.Constant) and tmo.value is None):
+        _WAIT_TIMEOUTS.append("None")
+    else:
+        try:
+            _WAIT_TIMEOUTS.append(f"(Some {T.coq_Z(T.const_int(tmo))})")
+        except T.Unsupported:
+            _WAIT_TIMEOUTS.append("(Some (-1)%Z)")        # a timeout that is not an integer literal
     return c.args[0].body
+
+
+_WAIT_TIMEOUTS: list[str] = []
 
 
 def _with_condition(stmt, what) -> list:
@@ -206,6 +237,7 @@ def generate(ck) -> bool:
     checked structurally here and fails closed; the hand model C09/Model.v assumes exactly this skeleton."""
     try:
         mod = T._src(SRC)
+        del _WAIT_TIMEOUTS[:]
         Z, B = "Z", "bool"
         out = [T.HEADER if hasattr(T, "HEADER") else ""]
         # ---- __init__
@@ -247,6 +279,9 @@ def generate(ck) -> bool:
         out.append(_expr(upd, [("in_flight", Z), ("amount", Z)], "acquire_regular_update", Z))
         _need(isinstance(acq[2], ast.Return) and isinstance(acq[2].value, ast.Name) and acq[2].value.id == "amount",
               "acquire: return amount")
+        _need(len(_WAIT_TIMEOUTS) == 2, "acquire has exactly two wait_for calls")
+        out.append("(* timeout argument of the oversized / regular wait_for in acquire (None = waits until notified) *)\n"
+                   f"Definition acquire_wait_timeouts : list (option Z) := [{'; '.join(_WAIT_TIMEOUTS)}].\n")
         # ---- release
         rel = _strip_doc(T.find_function(mod, "_ByteBudget.release").body)
         _need(len(rel) == 1, "release: one with block")
@@ -700,6 +735,8 @@ class Runtime:
         self.serial_started = set()
         self.write_count = {}             # tensor object -> number of evaluations (tofile calls)
         self.open_failed = False
+        self.nopen = 0                    # attempts to open a worker descriptor
+        self.handles = []                 # worker descriptors handed out
         self.inner_workers = {}           # pool -> next local index
         self.observed_pools = {}          # pool -> ("parallel", k) | ("serial", 1)
         self.yielded = {}                 # pool -> futures already yielded by as_completed
@@ -1060,15 +1097,37 @@ def reference(hc, workdir) -> dict:
             "limit": limit, "nw": sum(k)}
 
 
-def _failing_open(flagholder):
-    """`open` as seen by external_data: the first worker descriptor (mode r+b) fails with EMFILE."""
+def open_fail_attempts(hc) -> list[int]:
+    """hc["open_fail"]: which attempts (0-based, in order of occurrence) to open a worker descriptor fail."""
+    of = hc.get("open_fail")
+    if not of:
+        return []
+    return [0] if of is True or of == 1 else sorted(int(x) for x in of)
+
+
+def _failing_open(flagholder, hc, before=None, on_attempt=None):
+    """`open` as seen by external_data: attempts to open a worker descriptor (mode r+b) are counted; the
+    configured ones fail with EMFILE; every descriptor handed out is remembered (must be closed at the end)."""
     import builtins
+    fails = set(open_fail_attempts(hc))
+    mu = _real_threading.Lock()
 
     def fake_open(path, mode="r", *a, **k):
-        if mode == "r+b" and not flagholder.open_failed:
+        if mode != "r+b":
+            return builtins.open(path, mode, *a, **k)
+        if before is not None:
+            before()
+        with mu:
+            n = flagholder.nopen
+            flagholder.nopen = n + 1
+        if on_attempt is not None:
+            on_attempt(n in fails)
+        if n in fails:
             flagholder.open_failed = True
             raise OSError(errno.EMFILE, "injected: too many open files", os.fspath(path))
-        return builtins.open(path, mode, *a, **k)
+        f = builtins.open(path, mode, *a, **k)
+        flagholder.handles.append(f)
+        return f
     return fake_open
 
 
@@ -1167,12 +1226,18 @@ def run_coop(hc, plan, workdir, chooser, pickfn=None, keyfn=None, max_steps=4000
             rt.problems.append(f"save returned control ({result['outcome']}) with budget in_flight={inf} oversized={ov}")
         if rt.in_cb or any(rt.in_write.values()):
             rt.problems.append("save returned control while a callback / tensor write is in progress")
+        still_open = sum(1 for f in rt.handles if not f.closed)
+        if still_open:
+            rt.problems.append(f"save returned control with {still_open} worker file descriptor(s) still open")
         sched.emit(("M",), 40)
 
     saved = (ed.threading, ed.concurrent, ed._ByteBudget)
     ed.threading, ed.concurrent, ed._ByteBudget = rt.threading, rt.concurrent, Budget
-    if hc.get("open_fail"):
-        ed.open = _failing_open(rt)
+    def on_open_attempt(fails):
+        me = sched.cur
+        sched.emit(rt._wrk(me), 19 if fails else 18, me.task)
+    # _thread_file(): this worker has no descriptor yet (a scheduling point; POpen in the model)
+    ed.open = _failing_open(rt, hc, lambda: sched.point("open"), on_open_attempt)
     t0 = time.time()
     try:
         with _chunk(hc):
@@ -1194,7 +1259,7 @@ def run_coop(hc, plan, workdir, chooser, pickfn=None, keyfn=None, max_steps=4000
            "enabled_counts": sched.enabled_counts, "problems": rt.problems, "cb_log": rt.cb_log,
            "max_materialised": rt.max_materialised, "max_inflight": rt.max_inflight,
            "observed_pools": rt.observed_pools, "nbudgets": len(rt.budgets),
-           "write_counts": dict(rt.write_count), "open_failed": rt.open_failed,
+           "write_counts": dict(rt.write_count), "open_failed": rt.open_failed, "nopen": rt.nopen,
            "files": _list_files(out) if sched.outcome == "finished" else None,
            "threads": [t.name for t in sched.threads], "wall": time.time() - t0}
     shutil.rmtree(wd, ignore_errors=True)
@@ -1237,7 +1302,8 @@ def cfg_term(hc, plan) -> str:
                      f"{clist(cZ(b) for b in data[i])} {cbool(t['ext'])} {cbool(t['cbfail'])} {cbool(t['wfail'])}")
     wpool = [p for p, k in enumerate(plan["k"]) for _ in range(k)]
     return (f"(mkCfg {clist(tasks)} {clist(cbool(b) for b in plan['serial'])} {clist(str(p) for p in wpool)} "
-            f"{cZ(hc['cap'])} {cZ(hc.get('chunk') or REAL_CHUNK)} {cbool(plan['outer'])} {plan['limit']})")
+            f"{cZ(hc['cap'])} {cZ(hc.get('chunk') or REAL_CHUNK)} {cbool(plan['outer'])} {plan['limit']} "
+            f"{clist(str(k) for k in open_fail_attempts(hc))})")
 
 
 def _thread_term(th) -> str:
@@ -1254,15 +1320,16 @@ def trace_term(steps) -> str:
 def case_term(hc, plan, res) -> str:
     raised = res["outcome"] != "ok"
     files = [] if raised else [clist(cZ(b) for b in res["files"].get(n, b"")) for n in plan["names"]]
+    nevals = sum((res.get("write_counts") or {}).values())
     return (f"({cfg_term(hc, plan)},\n   {trace_term(res['steps'])},\n   {cbool(raised)}, "
-            f"{clist(str(i) for i, _ in res['cb_log'])}, {clist(files)})")
+            f"{clist(str(i) for i, _ in res['cb_log'])}, {clist(files)}, {res.get('nopen', 0)}, {nevals})")
 
 
 def cases_text(cases) -> str:
-    ty = "(cfg * list ostep * bool * list nat * list (list Z))%type"
+    ty = "(cfg * list ostep * bool * list nat * list (list Z) * nat * nat)%type"
     return (CASE_HEADER + f"Definition cases : list {ty} :=\n  " + ";\n  ".join(["["] and []) +
             "[" + ";\n  ".join(case_term(*c) for c in cases) + "].\n"
-            f"Definition agree (x : {ty}) : bool := let '(c, tr, r, cbs, fs) := x in run_agrees c tr r cbs fs.\n"
+            f"Definition agree (x : {ty}) : bool := let '(c, tr, r, cbs, fs, no, ne) := x in run_agrees c tr r cbs fs no ne.\n"
             "Eval vm_compute in (failing agree cases).\n")
 
 
@@ -1479,7 +1546,7 @@ def gen_hc(rng, size="small", fail=None):
           "chunk": rng.choice([None, 2, 4]) if any(t["ext"] for t in tensors) else None,
           "tseed": rng.randrange(1 << 30)}
     if size in ("small", "large", "oneshard") and not fail and rng.random() < 0.12:
-        hc["open_fail"] = 1           # EMFILE when the first worker opens its descriptor (oracle only, not in the model)
+        hc["open_fail"] = rng.choice([[0], [0], [1], [0, 1], [2]])   # EMFILE on these attempts to open a worker descriptor
     return hc
 
 
@@ -1567,8 +1634,10 @@ def soak(hc, plan, workdir, rng, runs) -> list[str]:
 
         class _Flag:
             open_failed = False
-        if hc.get("open_fail"):
-            ed.open = _failing_open(_Flag)
+            nopen = 0
+            handles = []
+        _Flag.handles = []
+        ed.open = _failing_open(_Flag, hc)
 
         def call(box=box, model=model, out=out, callback=callback):
             try:
@@ -1598,6 +1667,8 @@ def soak(hc, plan, workdir, rng, runs) -> list[str]:
             time.sleep(0.05)
             if threading.active_count() > base_threads:
                 st["problems"].append("worker threads still alive after save returned")
+        if any(not f.closed for f in _Flag.handles):
+            st["problems"].append("worker file descriptors still open after save returned")
         for b in budgets:
             if b._in_flight != 0 or b._oversized_active:
                 st["problems"].append(f"budget not released: in_flight={b._in_flight} oversized={b._oversized_active}")
@@ -1727,8 +1798,7 @@ class Collector:
         # an error path with cancellation, or a two-level run)
         if codes & {10, 11, 33} or plan["outer"]:
             ck.nontriv((hc, res["choices"], res["picks"]))
-        if keep_trace and res["sched_outcome"] == "finished" and len(self.cases) < self.trace_budget \
-                and not hc.get("open_fail"):
+        if keep_trace and res["sched_outcome"] == "finished" and len(self.cases) < self.trace_budget:
             self.cases.append((hc, plan, res))
         return bad
 
@@ -1817,7 +1887,7 @@ def run(ck) -> None:
                 col.record(hc, plan, run_coop(hc, plan, col.wd, pct_chooser(r) if i % 2 else random_chooser(r),
                                               pickfn=lambda n, r=r: r.randrange(n)), "corpus-random")
     # 3. exhaustive exploration of small configurations (all schedules modulo state equality)
-    exhaust_specs = [("tiny", 1500)] * 2 if not thorough else [("tiny", 12000)] * 4 + [("small", 8000)] * 3
+    exhaust_specs = [("tiny", 1000)] * 2 if not thorough else [("tiny", 12000)] * 4 + [("small", 8000)] * 3
     exhausted = []
     for k, (size, cap_runs) in enumerate(exhaust_specs):
         hc = gen_hc(rng, size, fail=(k % 2 == 1))
